@@ -85,6 +85,10 @@ EXPLANATION += (
     ' Round 10: the taint engine labels a store into a table that outlives a loop with labelled visiting order when the position is not given by the loop element (order-dependent overwrite); writes through an HDF5 handle opened for writing are sinks.'
 )
 
+EXPLANATION += (
+    ' Round 11: a list whose order was frozen from a set must be sorted before a TaxonomyTree is built from it (taint: frozen order); n_processors and chunk_size reach the election as configured.'
+)
+
 RULE_TEXT = (
     "one obligation per (sink site, set of source labels) finding, per "
     "benign source used, per RNG construction, per merge loop, per worker "
